@@ -67,4 +67,4 @@ func Pow(n int) int {
 }
 
 // DefaultFields are the default-field names used by generators ("" = no default field).
-var DefaultFields = []string{"", "df", "d f", "x'y", "df*", "x\"y", "a\x00b", "d\xffz", " df", "df\t", " ", "\n"}
+var DefaultFields = []string{"", "df", "d f", "x'y", "df*", "x\"y", "a\x00b", "d\xffz", " df", "df\t", " ", "\n", "a,b", "a;b", "a.b", "a:b", "a OR b"}
